@@ -41,6 +41,8 @@ type HSSpec struct {
 	ServerTime  int32   `json:"server_time"`
 	PadSeed     uint64  `json:"pad_seed"`
 	ExtraFP     []int64 `json:"extra_fp,omitempty"`
+	// ExtraFPAfter: fingerprints offered after the real one
+	ExtraFPAfter []int64 `json:"extra_fp_after,omitempty"`
 }
 
 // ClientDraws overrides the client's own random draws through the tag-guarded hooks (nil field = client draws itself).
